@@ -276,12 +276,12 @@ def ob_exponentiate_wrapper(fld):
 def ob_small_bigint(N):
     """BigInt<N> helpers of the N-bit recoding (N = 64, 128, 512): add/subtract with carry/borrow out, is_zero, is_odd, shift_right_in_word<1>, clear, copy"""
     import c06_loops
-    P = c06_loops.prog()
+    m = c02()
+    P = m.prog_for("A") if N == 192 else c06_loops.prog()       # 192 bits (PowersOfX::random): instantiated by harness/inst_core.cpp
     BI = NS + r"BigInt<%d>::" % N
     a, b = z3.BitVec("a", N), z3.BitVec("b", N)
     nb = N // 8
-    osz = max(nb, 16)
-    m = c02()
+    osz = 16 * ((nb + 15) // 16)                                # sizeof: the union holds whole 128-bit double words
 
     def obj(name, v, const=False):
         o = Obj(name, osz, "arg", 16, const)
@@ -400,5 +400,5 @@ def register(chk):
             chk.add("more:FpBase<%d>::square:compose:alias=%d" % (N, alias), ob_fpbase_compose, N, "square", alias)
     for fld in ("Fq", "Fr", "Fq2"):
         chk.add("more:exponentiate<%s>:wrapper" % fld, ob_exponentiate_wrapper, fld)
-    for N in (64, 128) + ((512,) if chk.tier == "thorough" else ()):        # 512 bits: about a minute of QF_BV
+    for N in (64, 128, 192) + ((512,) if chk.tier == "thorough" else ()):        # 512 bits: about a minute of QF_BV
         chk.add("more:BigInt<%d>:recoding helpers" % N, ob_small_bigint, N)
